@@ -375,7 +375,7 @@ def replay(path, root):
             break
     else:
         return {"reproduced": False, "why": "no native harness for this function"}
-    nr = NativeRunner(reg, c, root, rp.get("cex", {}).get("case"))
+    nr = NativeRunner(reg, c, root, (rp.get("cex") or {}).get("case"))    # cex is null for an undecided obligation
     rng = random.Random(rp.get("seed", 0))
     tries = []
     if rp.get("cex"):
